@@ -46,6 +46,15 @@ class Derive(Stream):
     def classify(self, c, o):
         return c["kind"]
 
+    def direct_check(self, c, o):
+        # the previous subscriber authenticated again with the same challenge, after this one's context was created
+        # (the harness keeps the previous UE context): same inputs, same results
+        again, was = o.get("prev_again"), getattr(self, "_prev", None)
+        self._prev = {k: o.get(k) for k in ("res_star", "kamf", "knasint", "knasenc")} if "panic" not in o and "res_star" in o else None
+        if again is not None and was is not None and again != was:
+            return "re-authenticating the previous subscriber after another UE context was created gives different results: was %r, now %r" % (was, again)
+        return None
+
     def coq_case(self, c, o):
         pan = "panic" in o
         g = lambda k: hb(o.get(k, "")) if not pan else "[]"
